@@ -524,14 +524,16 @@ class ExcelInPython:
         if err_value:
             return err_value
 
-        return min(self._only_numeric_list(flatten_list))
+        # no numeric value at all: Excel returns 0
+        return min(self._only_numeric_list(flatten_list), default=0)
 
     def _max(self, flatten_list: List):
         err_value = self._find_error_in_list(flatten_list)
         if err_value:
             return err_value
 
-        return max(self._only_numeric_list(flatten_list))
+        # no numeric value at all: Excel returns 0
+        return max(self._only_numeric_list(flatten_list), default=0)
 
     def _day(self, date: datetime.datetime):
         return date.day
